@@ -36,13 +36,21 @@ META = dict(
                "activated/cancelled/forced/started and registers a fresh generator; run_count changes nowhere else. "
                "(6) a node is entered only by its parent's children loop and never when a Block above it has ended; End "
                "block marks and unregisters every interrupt inside the block; a tick keeps only registered generators. "
-               "The model is tied to the real PInterpreter by differential execution (per-tick flags, events incl. "
+               "(7) lifted to whole ticks and runs (inductive over all schedules of ticks that reach their EndTicks, any "
+               "tag values, cancel/force/complete/inject requests): in every reachable state every generator is quiet; a "
+               "tick starts the body of a Watch/Alarm only if it was activated before the tick, or forced before the tick, "
+               "or its condition holds on that tick's tag values (all methods); a Watch outside every Alarm in a method "
+               "without Call macro that is cancelled while not activated stays cancelled and never starts its body in "
+               "any continuation. The model is tied to the real PInterpreter by differential execution (per-tick flags, events incl. "
                "scope_activate = body start, interrupt map).",
     level_note="PARTIAL where stated: 'at most once' is proved per registration (per interrupt generator) under the decidable "
                "hypotheses noCalls (no Call macro) and ordered (tree numbering); the literal reading 'a Watch body starts at "
                "most once per run' is kept as C04_full and refuted by a Watch inside an Alarm (every Alarm run declares the "
-               "Watch anew; by design) - C04_counterexample. The guards are per micro-step / per sub-tick and hold in all "
-               "states; they are not lifted to a single trace theorem over whole runs. 'Body runs' is read as: an "
+               "Watch anew; by design) - C04_counterexample. The whole-run 'never after cancel' theorem needs `stable` (no Call "
+               "macro, Watch not inside an Alarm: no reset can clear the flag); for the other nodes only the per-step guards "
+               "(cancelled_blocks_activation, cancelled_sticks with the two reset exceptions) are proved. The block-end clause "
+               "is proved as step guards (no entry into an ended block; abort marks/unregisters; unregistered generators are "
+               "dropped), not as one trace theorem. 'Body runs' is read as: an "
                "instruction of the body starts. A Watch whose generator re-registers itself in the tick its block is ended "
                "still gets a 'Started'/'Completed' run-log entry afterwards although no instruction of its body runs "
                "(observed, reported, not counted as a violation). Trusted: Lean kernel, the correspondence harness, the "
@@ -58,6 +66,9 @@ REQUIRED = [
     "OPM.C04.cancelled_body_never_starts", "OPM.C04.C04_partial_once_per_registration", "OPM.C04.alarm_rearms",
     "OPM.C04.run_count_changes_only_at_rearm", "OPM.C04.no_entry_into_ended_block",
     "OPM.C04.endBlock_aborts_interrupts", "OPM.C04.tick_keeps_only_registered", "OPM.C04.C04_counterexample",
+    "OPM.C04.scope_activate_matches_body_start", "OPM.C04.reachable_allQuiet",
+    "OPM.C04.tick_starts_body_only_if_condition_or_force", "OPM.C04.tick_cancelled_never_starts",
+    "OPM.C04.cancelled_watch_never_runs",
 ]
 COND_OPS = {"<": lambda a, b: a < b, "<=": lambda a, b: a <= b, "=": lambda a, b: a == b, "==": lambda a, b: a == b,
             "!=": lambda a, b: a != b, ">": lambda a, b: a > b, ">=": lambda a, b: a >= b}
@@ -380,7 +391,7 @@ def run(ctx: Check) -> int:
                 "generated and hand-made methods on the real Engine, 30-70 ticks, requests through "
                 "Engine.cancel_instruction/force_instruction.")
     cases = [json.loads(p.read_text()) for p in sorted((Path(__file__).parent.parent / "corpus" / "C04").glob("m3-*.json"))]
-    for i in range(ctx.n(120, 2500)):
+    for i in range(ctx.n(120, 3000)):
         pcode, stats = gen_c04_program(rng, macros=(i % 3 == 2))
         cases.append({"pcode": pcode, "ops": gen_c04_schedule(rng, rng.randrange(15, 45))})
         for k, v in stats.items():
@@ -388,7 +399,7 @@ def run(ctx: Check) -> int:
     lines, _, mo = _m3(ctx, "interp-m3-c04", cases, "")
     _selftest(ctx, "interp-m3-c04", lines, mo)
     bad = []
-    for i in range(ctx.n(25, 400)):
+    for i in range(ctx.n(25, 500)):
         pcode, _ = gen_c04_program(rng, malformed=True, macros=(i % 3 == 2))
         bad.append({"pcode": pcode, "ops": gen_c04_schedule(rng, rng.randrange(10, 30))})
     _m3(ctx, "interp-m3-c04-malformed", bad, "malformed:")
@@ -402,7 +413,7 @@ def run(ctx: Check) -> int:
     # property oracle on the real engine
     ocases = [json.loads(p.read_text()) for p in sorted((Path(__file__).parent.parent / "corpus" / "C04").glob("oracle-*.json"))]
     ocases += hand_cases()
-    ocases += gen_oracle_cases(ctx, ctx.n(40, 1200))
+    ocases += gen_oracle_cases(ctx, ctx.n(60, 4000))
     ctx.monitor(ocases, oracle_case, impl_timeout=60)
     for k, v in STATS.items():
         ctx.count("oracle:" + k, v)
